@@ -57,6 +57,27 @@ def coll_fill_exec(**kw):
     return f
 
 
+def coll_small_try_exec():
+    """small-node collections filled through the composable interface only (what fallback / segregator compositions
+    use): the rest of the block goes bucket by bucket through insert_rest, buckets refill after they ran empty"""
+    def f(rng):
+        h = {"fam": "coll", "type": "small", "bd": "identity", "src": rng.choice(["fixed", "fixed", "grow"]),
+             "ns": rng.choice([2, 3, 4, 8]), "bs": rng.choice([3000, 4096, 5000]), "place": rng.choice(["lo", "hi"]),
+             "member": rng.choice([0, 1])}
+        sizes = list(range(1, h["ns"] + 1))
+        cmds = []
+        for rnd in range(rng.randint(2, 4)):
+            for sz in rng.sample(sizes, len(sizes)):
+                for _ in range(rng.choice([40, 150, 300, 600])):
+                    cmds.append("tn %d 1" % sz)
+                cmds.append("sweep")
+            for _ in range(rng.randint(0, 30)):
+                cmds.append("td %d" % rng.randint(0, 500))
+        cmds.append("sweep")
+        return [(h, cmds)]
+    return f
+
+
 def coll_max_exec():
     """array requests at and just below / above what the collection reports as max_array_size(), with element sizes
     that round up to bigger bucket nodes (F26, F27)"""
@@ -265,7 +286,7 @@ def jobs_for(prop, tier, seed):
             J.append(Job(cfg, SEQ[0], SEQ[1], _batch(r, scale, makers), label))
 
     if prop in ("C01", "C02"):
-        add(["rel", "base", "dbg", "f16"], "pools", [(14, pool_exec()), (10, coll_exec()), (4, coll_fill_exec())])
+        add(["rel", "base", "dbg", "f16"], "pools", [(14, pool_exec()), (10, coll_exec()), (4, coll_fill_exec()), (3, coll_small_try_exec())])
         add(["rel", "base", "dbg", "f16"], "stacks", [(8, stack_exec()), (8, iter_exec()), (2, static_exec()),
                                                       (3, stack_replay_exec())])
         add(["base", "dbg"], "moves", [(4, moved(pool_exec())), (3, moved(coll_exec())), (3, moved(stack_exec())),
